@@ -552,10 +552,13 @@ class TracedSolver(Solver):
         ub = self.problem.var_ub
 
         def inb(it):
-            return bool((it.x >= lb).all() and (it.x <= ub).all())
+            x = np.asarray(it.x)
+            return bool(x.shape == lb.shape and (x >= lb).all() and (x <= ub).all())
 
+        # the event carries the run of the solver this observer was registered on (not the run that happens to be active): an
+        # observer that hears the steps of another solver shows up as a Notify of a finished / foreign run
         rec.emit("Notify", **{"from": rec.pid(iterate)}, to=rec.pid(next_iterate), accept=bool(accept),
-                 fromInbox=inb(iterate), toInbox=inb(next_iterate), solverRho=F("RHO", self.rho))
+                 fromInbox=inb(iterate), toInbox=inb(next_iterate), solverRho=F("RHO", self.rho), run=self._run)
 
     # -- recording substitutes
     def _make_penalty(self, orig):
@@ -794,7 +797,7 @@ class TracedSolver(Solver):
             collectPath=bool(p.collect_path), ncb=self._ncb, display=display,
             debug=bool(logger.getEffectiveLevel() <= logging.DEBUG), rcond=bool(p.report_rcond),
             m0=bool(self.problem.num_cons == 0), derivCheck=bool(p.deriv_check != DerivCheck.NoCheck),
-            algKey=self._algkey, twin=self._twin, obj=self._obj_id, wellposed=bool(getattr(self, "_wellposed", False)),
+            algKey=self._algkey, twin=self._twin, obj=self._obj_id, wellposed=bool(getattr(self, "_wellposed", False)), startUndef=bool(getattr(self, "_start_undef", False)), validate=bool(p.validate_input),
         )
 
     def solve(self, x0=None, y0=None):
